@@ -13,6 +13,8 @@ use virtio_drivers::verif_hooks::{Point, SpinSite};
 pub struct Fault {
     pub prop: &'static str,
     pub msg: String,
+    /// device address the fault is about, if any
+    pub addr: u64,
 }
 
 /// What the spin/store hook should do once the device model has run.
@@ -78,7 +80,14 @@ impl World {
             self.faults.push(Fault {
                 prop,
                 msg: msg.into(),
+                addr: 0,
             });
+        }
+    }
+
+    pub fn fault_at(&mut self, prop: &'static str, msg: impl Into<String>, addr: u64) {
+        if self.faults.len() < 64 {
+            self.faults.push(Fault { prop, msg: msg.into(), addr });
         }
     }
 }
